@@ -36,7 +36,11 @@ class ListModel:
             for k in reversed(range(len(self.items) - 1)):
                 v = If(idx == k, self.items[k], v)
             return [v], 0
-        raise Unsupported('symbolic index into a list of aggregates')
+        # aggregates of one shape: a read-only if-then-else merge of the candidates (writes through it do not reach the list)
+        v = self.items[-1]
+        for k in reversed(range(len(self.items) - 1)):
+            v = ite_merge(idx == k, self.items[k], v)
+        return [v], 0
 
     def mir_cindex(self, ex, k, from_end):
         return self.items, (len(self.items) - k if from_end else k)
@@ -44,6 +48,23 @@ class ListModel:
     def mir_field(self, ex, k, ty):
         # Vec { buf: RawVec, len } / slices seen through struct projections are not inspected
         return [Opaque('%s.%d' % (self.kind, k))], 0
+
+
+def ite_merge(c, a, b):
+    """if c then a else b, structurally, for values of one shape (scalars, pointers, tuples/structs, enums, identity tokens)"""
+    if a is b: return a
+    if z3.is_expr(a) and z3.is_expr(b): return If(c, a, b)
+    if isinstance(a, Ptr) and isinstance(b, Ptr): return box(ite_merge(c, a.get(), b.get()))
+    if isinstance(a, list) and isinstance(b, list) and len(a) == len(b): return [ite_merge(c, x, y) for x, y in zip(a, b)]
+    if isinstance(a, Enum) and isinstance(b, Enum) and a.ty == b.ty:
+        fields = {}
+        for k in set(a.fields) | set(b.fields):
+            fa, fb = a.fields.get(k), b.fields.get(k)
+            fields[k] = fa if fb is None else (fb if fa is None else [ite_merge(c, x, y) for x, y in zip(fa, fb)])
+        return Enum(a.ty, If(c, a.disc, b.disc), fields)
+    if isinstance(a, Opaque) and isinstance(b, Opaque): return Opaque('ite(%s,%s)' % (a.tag, b.tag))
+    if type(a) is type(b) and hasattr(a, 'tok'): return type(a)(If(c, a.tok, b.tok))
+    raise Unsupported('if-then-else merge of %r and %r' % (a, b))
 
 
 def as_list(ex, v):
@@ -595,10 +616,11 @@ class OptCont:
         k = self.kind
         if k in ('is_some_and', 'and_then', 'unwrap_or_else', 'map_or', 'map_or_else', 'is_none_or'): return rv
         if k == 'map': return some(rv)
+        if k == 'ok_or_else': return Enum('Result', BitVecVal(1, 64), {'Ok': [Opaque('ok')], 'Err': [rv]})
         raise Unsupported('Option::' + k)
 
 
-@h(r'^(?:std::option::|core::option::)?Option::<.*>::(is_some_and|is_none_or|map|and_then|unwrap_or_else|map_or|filter)::<.*>$')
+@h(r'^(?:std::option::|core::option::)?Option::<.*>::(is_some_and|is_none_or|map|and_then|unwrap_or_else|map_or|filter|ok_or_else)::<.*>$')
 def opt_comb(ex, st, callee, args):
     """Option::{is_some_and, is_none_or, map, and_then, unwrap_or_else, map_or, filter}: the closure body is executed from MIR"""
     kind = re.search(r'>::(\w+)::<', callee).group(1)
@@ -610,6 +632,7 @@ def opt_comb(ex, st, callee, args):
         oo = a[0]; pay = oo.fields['Some'][0]
         if kind in ('is_some_and', 'is_none_or', 'map', 'and_then'): return call_closure(ex, a[1], [pay], cont=OptCont(kind), st=st)
         if kind == 'unwrap_or_else': return pay
+        if kind == 'ok_or_else': return Enum('Result', BitVecVal(0, 64), {'Ok': [pay], 'Err': [Opaque('err')]})
         if kind == 'map_or': return call_closure(ex, a[2], [pay], cont=OptCont(kind), st=st)
         if kind == 'filter':
             class F:
@@ -621,7 +644,7 @@ def opt_comb(ex, st, callee, args):
         if kind == 'is_some_and': return BoolVal(False)
         if kind == 'is_none_or': return BoolVal(True)
         if kind in ('map', 'and_then', 'filter'): return none()
-        if kind == 'unwrap_or_else': return call_closure(ex, a[1], [], cont=OptCont(kind), st=st)
+        if kind in ('unwrap_or_else', 'ok_or_else'): return call_closure(ex, a[1], [], cont=OptCont(kind), st=st)
         if kind == 'map_or': return a[1]
         raise Unsupported(kind)
     c = simp(is_some)
@@ -632,6 +655,22 @@ def opt_comb(ex, st, callee, args):
 
 def _now(ex, st, r):
     return r
+
+
+@h(r'^(?:std::cmp::|core::cmp::)?Ordering::then_with::<.*>$')
+def ordering_then_with(ex, st, callee, args):
+    """Ordering::then_with: self unless Equal, else the closure's result (closure body executed from MIR)"""
+    o = args[0]
+    if not isinstance(o, Enum): raise Unsupported('then_with on %r' % (o,))
+    eq = o.disc == BitVecVal(0, o.disc.size())
+    class K:
+        def step(self_, ex, st, rv): return rv
+    def on_eq(ex, st, a): return call_closure(ex, a[1], [], cont=K(), st=st)
+    def on_ne(ex, st, a): return a[0]
+    c = simp(eq)
+    if z3.is_true(c): return on_eq(ex, st, args)
+    if z3.is_false(c): return on_ne(ex, st, args)
+    return Fork([(eq, on_eq), (Not(eq), on_ne)])
 
 
 @h(r'^%s::<.*>::partition_point::<.*>$|^core::slice::<impl \[.*\]>::partition_point::<.*>$' % _SEQ)
